@@ -54,9 +54,40 @@ def ds_key(ds):
         return None
     out = [int(ds["natom"])]
     for d in ds["first_atoms"]:
-        out.append((int(d["number"]), tuple(np.round(np.asarray(d["displacement"], dtype=float), 12)),
-                    None if "forces" not in d else np.asarray(d["forces"], dtype=float).tobytes()))
+        out.append((int(d["number"]), np.asarray(d["displacement"], dtype=float).tobytes(),
+                    None if "forces" not in d else np.asarray(d["forces"], dtype=float).tobytes(),
+                    None if "supercell_energy" not in d else float(d["supercell_energy"]),
+                    tuple(sorted(d.keys()))))
+    out.append(tuple(sorted(ds.keys())))
     return out
+
+
+def containers(o, acc=None):
+    """ids of all nested mutable containers / arrays of a caller object"""
+    acc = {} if acc is None else acc
+    if isinstance(o, (dict, list, np.ndarray)):
+        if id(o) in acc:
+            return acc
+        acc[id(o)] = o
+        if isinstance(o, dict):
+            for v in o.values():
+                containers(v, acc)
+        elif isinstance(o, list):
+            for v in o:
+                containers(v, acc)
+    return acc
+
+
+def deep_shared(a, b):
+    """do two objects share a nested mutable container or array memory?"""
+    if a is None or b is None:
+        return False
+    ca, cb = containers(a), containers(b)
+    if set(ca) & set(cb):
+        return True
+    arrs_a = [x for x in ca.values() if isinstance(x, np.ndarray)]
+    arrs_b = [x for x in cb.values() if isinstance(x, np.ndarray)]
+    return any(np.shares_memory(x, y) for x in arrs_a for y in arrs_b)
 
 
 def ds_close(a, b):
@@ -70,6 +101,10 @@ def ds_close(a, b):
         if ("forces" in x) != ("forces" in y):
             return False
         if "forces" in x and not close(x["forces"], y["forces"]):
+            return False
+        if ("supercell_energy" in x) != ("supercell_energy" in y):
+            return False
+        if "supercell_energy" in x and abs(float(x["supercell_energy"]) - float(y["supercell_energy"])) > 1e-12:
             return False
     return True
 
@@ -115,6 +150,11 @@ class World:
             for d in ds["first_atoms"]:
                 d["forces"] = np.array(-np.einsum("jab,b->ja", fc[d["number"]], d["displacement"]), dtype="double", order="C")
             self.ds_pool.append(ds)
+        nd = len(self.ds_pool[0]["first_atoms"])
+        self.force_pool = [np.array(rs.normal(scale=0.05, size=(nd, self.ns, 3)) + np.array(
+            [-np.einsum("jab,b->ja", self.fc_pool[k % len(self.fc_pool)][d["number"]], d["displacement"]) for d in self.ds_pool[0]["first_atoms"]]),
+            dtype="double", order="C") for k in range(4)]
+        self.energy_pool = [rs.uniform(-10, 10, size=nd) for k in range(3)]
         lmin = gen.min_lattice_vector(sc.cell)
         self.radii = [0.4 * lmin, 0.6 * lmin, 0.85 * lmin, 10 * lmin]
         self._memo = {}
@@ -166,9 +206,37 @@ class World:
         return r
 
     def ds_term(self, t):
-        if t % 7 != 0:
-            raise common.Broken("model-term", "dataset term %d is not a leaf" % t)
-        return self.ds_pool[t // 7]
+        key = ("ds", t)
+        if key in self._memo:
+            return self._memo[key]
+        tag, x = t % 7, t // 7
+        if tag == 0:
+            r = self.ds_pool[x]
+        elif tag == 1:    # ph.forces = force_pool[f]
+            r = _copy.deepcopy(self.ds_term(x // 8))
+            for d, f in zip(r["first_atoms"], self.force_pool[x % 8]):
+                d["forces"] = np.array(f, dtype="double", order="C")
+        elif tag == 2:    # ph.supercell_energies = energy_pool[e]
+            r = _copy.deepcopy(self.ds_term(x // 8))
+            for d, e in zip(r["first_atoms"], self.energy_pool[x % 8]):
+                d["supercell_energy"] = float(e)
+        else:
+            raise common.Broken("model-term", "dataset term with tag %d" % tag)
+        self._memo[key] = r
+        return r
+
+    def disp_term(self, t):
+        """displaced-supercell positions of the dataset term under `dispOf`"""
+        if t % 7 != 3:
+            raise common.Broken("model-term", "displacement term with tag %d" % (t % 7))
+        ds = self.ds_term(t // 7)
+        base = self.ph0.supercell.positions
+        out = []
+        for d in ds["first_atoms"]:
+            p_ = base.copy()
+            p_[d["number"]] += d["displacement"]
+            out.append(p_)
+        return out
 
     def nac_term(self, t):
         key = ("nac", t)
@@ -224,7 +292,7 @@ def op_text(op):
         return "%s %s" % (k, "-" if op[1] is None else "$%d" % op[1])
     if k == "mut":
         return "mut $%d %d" % (op[1], 7 * op[2])
-    if k in ("sym", "cut", "setmasses"):
+    if k in ("sym", "cut", "setmasses", "setforces", "setenergies", "producewith"):
         return "%s %d" % (k, op[1])
     if k == "q":
         return "q %s" % op[1]
@@ -290,14 +358,7 @@ def run_impl(w, ops, viol, fsf=False):
         cur = [ph.force_constants, ph.nac_params, ph.dataset]
         if ph.dynamical_matrix is not None:
             cur.append(ph.dynamical_matrix.force_constants)
-        for c in cur:
-            if c is None:
-                continue
-            if c is o:
-                return True
-            if isinstance(c, np.ndarray) and isinstance(o, np.ndarray) and np.shares_memory(c, o):
-                return True
-        return False
+        return any(deep_shared(c, o) for c in cur if c is not None)
 
     for si, op in enumerate(ops):
         k = op[0]
@@ -330,6 +391,19 @@ def run_impl(w, ops, viol, fsf=False):
                     ph.force_constants = objs[op[1]]
             elif k == "produce":
                 ph.produce_force_constants()
+            elif k in ("setforces", "producewith"):
+                handed = w.force_pool[op[1]].copy()
+                if k == "setforces":
+                    ph.forces = handed
+                else:
+                    ph.produce_force_constants(forces=handed)
+                if not close(handed, w.force_pool[op[1]], 0.0):
+                    viol("Phonopy.forces setter", "caller-forces-modified", "the force array handed in was modified", si)
+            elif k == "setenergies":
+                handed = w.energy_pool[op[1]].copy()
+                ph.supercell_energies = handed
+                if not close(handed, w.energy_pool[op[1]], 0.0):
+                    viol("Phonopy.supercell_energies setter", "caller-energies-modified", "the energy array handed in was modified", si)
             elif k == "sym":
                 ph.symmetrize_force_constants(level=op[1])
             elif k == "symsg":
@@ -368,10 +442,16 @@ def run_impl(w, ops, viol, fsf=False):
                 if tgt is None:
                     out = ("err", "badRef")
                 else:
+                    kd = kinds[op[1]]
                     if reachable(tgt):
                         flag = "D"
-                        tainted = True
-                    kd = kinds[op[1]]
+                        if kd == "ds" and op[1] in snaps:
+                            # a dataset dict created by the caller: the setter deep-copies (no documented door),
+                            # so the object must not be able to see this mutation
+                            viol("Phonopy.dataset setter", "caller-container-shared",
+                                 "the stored dataset shares nested containers with the dict handed to the setter", si)
+                        else:
+                            tainted = True
                     if kd == "fc":
                         tgt[...] = w.fc_pool[op[2]]
                     elif kd == "nac":
@@ -381,9 +461,26 @@ def run_impl(w, ops, viol, fsf=False):
                         tgt["factor"] = src["factor"]
                         tgt["method"] = src["method"]
                     else:
+                        # mutate the nested containers in place (entry dicts and arrays), as a caller who
+                        # edits his dataset would
                         src = _copy.deepcopy(w.ds_pool[op[2]])
-                        tgt.clear()
-                        tgt.update(src)
+                        tgt["natom"] = src["natom"]
+                        for e, se in zip(tgt["first_atoms"], src["first_atoms"]):
+                            e["number"] = se["number"]
+                            if isinstance(e["displacement"], np.ndarray):
+                                e["displacement"][...] = se["displacement"]
+                            else:
+                                e["displacement"] = se["displacement"]
+                            for key in list(e.keys()):
+                                if key not in se:
+                                    del e[key]
+                            for key in se:
+                                if key in ("number", "displacement"):
+                                    continue
+                                if key in e and isinstance(e[key], np.ndarray) and np.shape(e[key]) == np.shape(se[key]):
+                                    e[key][...] = se[key]
+                                else:
+                                    e[key] = se[key]
             elif k == "q":
                 what = op[1]
                 if what in ("freq", "gv"):
@@ -580,6 +677,147 @@ def check_copy(w, ph, c, viol, si):
 
 
 # --------------------------------------------------------------------------
+# two objects given the same caller containers (oracle only)
+# --------------------------------------------------------------------------
+
+def obj_state(ph):
+    dm = ph.dynamical_matrix
+    return dict(ds=_copy.deepcopy(ph.dataset), fc=None if ph.force_constants is None else ph.force_constants.copy(),
+                m=None if ph.masses is None else ph.masses.copy(), nac=_copy.deepcopy(ph.nac_params),
+                dmfc=None if dm is None else dm.force_constants.copy())
+
+
+def state_diff(a, b):
+    out = []
+    if not ds_close(a["ds"], b["ds"]):
+        out.append("dataset")
+    if not close(a["fc"], b["fc"], 1e-12):
+        out.append("force_constants")
+    if not close(a["dmfc"], b["dmfc"], 1e-12):
+        out.append("dynamical_matrix.force_constants")
+    if not close(a["m"], b["m"], 0.0):
+        out.append("masses")
+    if not nac_close(a["nac"], b["nac"]):
+        out.append("nac_params")
+    return out
+
+
+def pair_script(rng, w, cls, kind):
+    """ops (object index, op) on two objects that are handed the SAME caller containers"""
+    sc = [(0, ("setds",)), (1, ("setds",))]
+    if kind == "forces":
+        sc += [(1, ("setforces", 2)), (0, ("produce",)), (1, ("produce",))]
+    elif kind == "energies":
+        sc += [(1, ("setenergies", 1)), (0, ("produce",)), (0, ("setenergies", 2)), (1, ("produce",))]
+    elif kind == "producewith":
+        sc += [(1, ("producewith", 3)), (0, ("produce",))]
+    elif kind == "masses":
+        sc = [(0, ("setmasses-shared",)), (1, ("setmasses-shared",)), (0, ("setfc-view",)), (1, ("setfc-view",)), (1, ("setmasses", 2))]
+    elif kind == "fc-own":
+        sc = [(0, ("setfc-own",)), (1, ("setfc-own",)), (1, ("sym", 1))]
+    else:   # random interleaving
+        pool = [("setds",), ("setforces", rng.randrange(4)), ("setenergies", rng.randrange(3)), ("produce",), ("producewith", rng.randrange(4)),
+                ("setfc-view",), ("sym", 1), ("cut", 1), ("setmasses-shared",), ("setmasses", rng.randrange(3)), ("setnac-shared",), ("q",)]
+        sc += [(rng.randrange(2), rng.choice(pool)) for _ in range(rng.randint(4, 10))]
+    if cls != "plain" and kind != "random":
+        sc = [(0, ("setnac-shared",)), (1, ("setnac-shared",))] + sc
+    sc += [(0, ("q",)), (1, ("q",))]
+    return sc
+
+
+def run_pair(w, cls, script, viol):
+    """A, B share the caller's containers; the shadows A', B' are handed deep copies. Every
+    observable difference between an object and its shadow is leakage between the objects; every
+    change of a caller container is a modification of data handed in."""
+    real = [w.new_phonopy(), w.new_phonopy()]
+    shadow = [w.new_phonopy(), w.new_phonopy()]
+    caller = dict(ds=_copy.deepcopy(w.ds_pool[0]), masses=[float(x) for x in w.mass_pool[1]], nac=_copy.deepcopy(w.nac_pool[1 if cls == "wang" else 0]),
+                  fcbase=w.fc_pool[1].copy(), fcown=w.fc_pool[2].copy())
+    caller["fcview"] = caller["fcbase"][:]
+    pristine = _copy.deepcopy({k: v for k, v in caller.items() if k != "fcview"})
+
+    def apply(ph, op, shared):
+        k = op[0]
+        if k == "setds":
+            ph.dataset = caller["ds"] if shared else _copy.deepcopy(pristine["ds"])
+        elif k == "setforces":
+            ph.forces = w.force_pool[op[1]].copy()
+        elif k == "setenergies":
+            ph.supercell_energies = w.energy_pool[op[1]].copy()
+        elif k == "produce":
+            ph.produce_force_constants()
+        elif k == "producewith":
+            ph.produce_force_constants(forces=w.force_pool[op[1]].copy())
+        elif k == "setfc-view":
+            ph.force_constants = caller["fcview"] if shared else pristine["fcbase"].copy()
+        elif k == "setfc-own":
+            ph.force_constants = caller["fcown"] if shared else pristine["fcown"].copy()
+        elif k == "sym":
+            ph.symmetrize_force_constants(level=op[1])
+        elif k == "cut":
+            ph.set_force_constants_zero_with_radius(w.radii[op[1]])
+        elif k == "setmasses-shared":
+            ph.masses = caller["masses"] if shared else list(pristine["masses"])
+        elif k == "setmasses":
+            ph.masses = w.mass_pool[op[1]]
+        elif k == "setnac-shared":
+            ph.nac_params = caller["nac"] if shared else _copy.deepcopy(pristine["nac"])
+        elif k == "q":
+            ph.run_qpoints(QS)
+            return ph.qpoints.frequencies.copy()
+        return None
+
+    for si, (oi, op) in enumerate(script):
+        res = []
+        for objs, shared in ((real, True), (shadow, False)):
+            try:
+                res.append(("ok", apply(objs[oi], op, shared)))
+            except Exception as e:
+                import os
+                import traceback
+
+                tb = traceback.extract_tb(e.__traceback__)
+                if not any(os.path.abspath(f.filename).startswith(os.path.abspath(common.REPO) + os.sep) for f in tb):
+                    raise
+                res.append(("err", type(e).__name__))
+        name = "Phonopy.%s" % op[0]
+        if res[0][0] != res[1][0]:
+            viol(name, "cross-object-leak", "object %d: %s with shared caller containers, %s with private copies" % (oi, res[0], res[1]), si)
+        elif res[0][0] == "ok" and res[0][1] is not None and not close(res[0][1], res[1][1], TOL):
+            if any(o[1][0] == "setfc-own" for o in script[: si + 1]):
+                # both objects were handed the same own array: the documented no-copy door of the setter
+                viol("Phonopy.force_constants setter", "caller-array-aliased",
+                     "two objects given the same own force-constant array: symmetrising one changes the phonons of the other", si)
+            else:
+                viol("Phonopy.run_qpoints", "cross-object-leak",
+                 "object %d: phonons differ by %.3g THz from the same history run on an object with private copies of the inputs" % (
+                     oi, float(np.abs(res[0][1] - res[1][1]).max())), si)
+        # ---- caller containers unchanged (deep)
+        own_door = False
+        for key in pristine:
+            cur, ref = caller[key], pristine[key]
+            same = ds_key(cur) == ds_key(ref) if key == "ds" else (nac_close(cur, ref) if key == "nac" else (
+                list(cur) == list(ref) if key == "masses" else close(cur, ref, 0.0)))
+            if not same:
+                if key == "fcown":
+                    own_door = True
+                    viol("Phonopy.force_constants setter", "caller-array-aliased",
+                         "an own array handed to the setter of two objects was overwritten in place by %s" % op[0], si)
+                else:
+                    viol(name, "caller-container-modified", "the caller's %s was modified by object %d (%s)" % (key, oi, op[0]), si)
+                pristine[key] = _copy.deepcopy(cur)   # report once
+        # ---- no leakage: each object equals its shadow
+        for j in (0, 1):
+            d = state_diff(obj_state(real[j]), obj_state(shadow[j]))
+            if d:
+                if own_door or (set(d) <= {"force_constants", "dynamical_matrix.force_constants"} and any(o[1][0] == "setfc-own" for o in script[: si + 1])):
+                    continue   # through the documented no-copy door of the force-constant setter (reported above)
+                viol(name, "cross-object-leak",
+                     "after object %d did %s, object %d differs in %s from the same history on an object with private copies" % (oi, op[0], j, ", ".join(d)), si)
+                return
+
+
+# --------------------------------------------------------------------------
 # comparison with the model
 # --------------------------------------------------------------------------
 
@@ -660,13 +898,7 @@ def compare(w, m0, ops, impl, model, mism):
                     if out[1] is not None:
                         mism("supercells_with_displacements: model None", si)
                 else:
-                    ds = w.ds_term(int(v))
-                    base = w.ph0.supercell.positions
-                    exp = []
-                    for d in ds["first_atoms"]:
-                        p = base.copy()
-                        p[d["number"]] += d["displacement"]
-                        exp.append(p)
+                    exp = w.disp_term(int(v))
                     if out[1] is None or len(out[1]) != len(exp) or not all(close(a, b) for a, b in zip(out[1], exp)):
                         mism("supercells_with_displacements differ from the model's dataset term %s" % v, si)
         elif head == "copied":
@@ -776,6 +1008,11 @@ def symbols(cls, n0, full):
             "mutout": lambda p: [("q", "fc"), ("mut", p, 4)],
             "qgv": lambda p: [("q", "gv")],
             "mutnac": lambda p: [("q", "nac"), ("mut", p, nacidx)],
+            "setforces": lambda p: [("setforces", 1)],
+            "setenergies": lambda p: [("setenergies", 1)],
+            "producewith": lambda p: [("producewith", 2)],
+            "mutds": lambda p: [("mut", 2, 1)],
+            "qdisps": lambda p: [("q", "disps")],
         })
     return syms
 
@@ -804,7 +1041,15 @@ def random_history(rng, w, length):
             ops.append(("setfc", rng.choice(have["fc"])))
         elif r < 0.20:
             if have["ds"] or rng.random() < 0.5:
-                ops.append(("produce",))
+                rr = rng.random()
+                if rr < 0.4:
+                    ops.append(("produce",))
+                elif rr < 0.6:
+                    ops.append(("producewith", rng.randrange(4)))
+                elif rr < 0.85:
+                    ops.append(("setforces", rng.randrange(4)))
+                else:
+                    ops.append(("setenergies", rng.randrange(3)))
         elif r < 0.30:
             ops.append(("sym", rng.choice([0, 1, 1, 2])))
         elif r < 0.36:
@@ -1096,6 +1341,32 @@ def main(run):
         run.violation(s, c, what, dict(world=w.describe(), frequency_scale_factor=World.FSF if fsf else None, history=[op_text(o) for o in small],
                                        masses0=None if w.start_masses is None else "from symbols",
                                        note="ops as in lean/Drivers/C15.lean; value 7k = entry k of the pools of World(crystal, supercell, pool_seed) in harness/props/c15.py"))
+
+    # ---- two objects sharing the caller's containers
+    t0 = time.time()
+    npair = 0
+    pair_found = {}
+    kinds = ["forces", "energies", "producewith", "masses", "fc-own"]
+    for w in worlds[:2]:
+        for cls in ("plain", "wang", "gl"):
+            scripts = [(kd, pair_script(rng, w, cls, kd)) for kd in kinds]
+            scripts += [("random", pair_script(rng, w, cls, "random")) for _ in range(12 if thorough else 3)]
+            for kd, sc in scripts:
+                hits = []
+                run_pair(w, cls, sc, lambda s_, c_, what, si: hits.append((s_, c_, what, si)))
+                npair += 1
+                run.case(("pair", w.name, cls, tuple(sc)), nontrivial=True)
+                run.count("pair histories (%s)" % kd)
+                for (s_, c_, what, si) in hits:
+                    run.count("%s / %s" % (s_, c_), section="oracle")
+                    if (s_, c_) not in pair_found or si < pair_found[(s_, c_)][3]:
+                        pair_found[(s_, c_)] = (w, cls, sc, si, what)
+    run.cov["pair_histories"] = npair
+    run.cov["pair_wall_s"] = round(time.time() - t0, 1)
+    for (s_, c_), (w, cls, sc, si, what) in sorted(pair_found.items()):
+        run.violation(s_, c_, what, dict(world=w.describe(), dm_class=cls, two_objects=True,
+                                         script=[("A" if o == 0 else "B") + "." + " ".join(map(str, op)) for o, op in sc[: si + 1]],
+                                         note="A and B are handed the same caller dataset dict / masses list / nac dict / fc array (harness/props/c15.py: run_pair)"))
 
     if ctor_hits:
         w, what = ctor_hits[0]
